@@ -228,7 +228,7 @@ class Lowerer:
         return False
 
     def _index_record(self, o, template):
-        if self._in_use_ns(o):
+        if self._in_use_ns(o) or not self._is_phq_decl(o):
             return
         if template:
             targs = []
@@ -450,7 +450,9 @@ class Lowerer:
         is_static = node.get('storageClass') == 'static'
         params = []
         pnodes = [c for c in kids(node) if c.get('kind') == 'ParmVarDecl']
-        if kind in ('CXXMethodDecl', 'CXXConversionDecl') and not is_static:
+        if kind in ('CXXMethodDecl', 'CXXConversionDecl') and not is_static and rec is None:
+            fk = 'func'      # member of a non-PhQ class (std::hash<...>::operator()): 'this' is not used
+        elif kind in ('CXXMethodDecl', 'CXXConversionDecl') and not is_static:
             fk = 'method'
         elif kind == 'CXXConstructorDecl':
             fk = 'ctor'
@@ -1212,6 +1214,17 @@ class Lowerer:
             obj = ('L', b, self.ntype(b))
         # library entities
         in_phq = node is not None and rd['id'] in self.ast.byid and self._is_phq_decl(node)
+        if not in_phq and name == 'operator()' and obj is not None and obj[2][0] == 'lib' and obj[2][1].startswith('std::hash<'):
+            at = self.ntype(args[0])
+            at = at[1] if at[0] == 'ref' else at
+            if at[0] in ('f', 'i', 'bool', 'enum'):
+                self.cur.libs.add('hash')
+                return ('lib', SIZE_T, 'hash', [self.rv(args[0])])
+            if node is not None and self.has_body(node):
+                g = self.func_for(rd['id'])
+                self.note_callee(g)
+                return ('call', g.ret, g.cname, self.bind_args(g, node, args))
+            raise Unsupported('std::hash of %s' % (at,))
         if not in_phq:
             return self.lib_call(n, name, rd, obj, args)
         special = self.special_call(n, node, name, obj, args)
